@@ -340,9 +340,13 @@ pub fn close_f32(a: f32, b: f32, rel: f32) -> bool {
     (a - b).abs() <= rel * b.abs().max(a.abs())
 }
 
-/// Token equality with numeric tolerance `rel` (C08 uses a loose one; exactness is C10's job).
+/// Token equality with numeric tolerance `rel` (C08 uses a loose one; exactness of non-integers is C10's job).
+/// Two integer-valued tokens that were not rewritten must be the same integer: anything else is another token.
 pub fn tok_eq(a: &T, e: &T, rel: f32) -> bool {
     match (a, e) {
+        (T::Num { int: Some(i1), .. }, T::Num { int: Some(i2), .. }) => i1 == i2,
+        (T::Pct { int: Some(i1), .. }, T::Pct { int: Some(i2), .. }) => i1 == i2,
+        (T::Dim { int: Some(i1), unit: u1, .. }, T::Dim { int: Some(i2), unit: u2, .. }) if u1 == u2 && u1 != "vw" => i1 == i2,
         (T::Num { v: a1, sign: s1, .. }, T::Num { v: b1, sign: s2, .. }) => close_f32(*a1, *b1, rel) && (s1 == s2 || true),
         (T::Pct { v: a1, .. }, T::Pct { v: b1, .. }) => close_f32(*a1, *b1, rel),
         (T::Dim { v: a1, unit: u1, .. }, T::Dim { v: b1, unit: u2, .. }) => close_f32(*a1, *b1, rel) && u1 == u2,
